@@ -430,6 +430,23 @@ Definition observers_ok_b (broken : list N) (dg : digest) (views : alist (option
           end) dg.(g_sessions).
 Definition observers_ok := observers_ok_b [].
 
+(* "A virtual session appears to the room as a participant" - to every connected member, also one that joined after
+   it was added: the replayed view of a member the server can write to contains every virtual session that is a
+   member of its room (C19; the full equality of views is C04's clause). *)
+Definition virtuals_seen_b (broken : list N) (dg : digest) (views : alist (option (N * list N))) : bool :=
+  forallb (fun x =>
+     if is_virtual_d x || negb (writable broken x) then true
+     else match x.(d_conn), x.(d_room) with
+          | Some _, Some k =>
+              match room_entry dg k, aget views x.(d_sid) with
+              | Some (m, _), Some (Some (r, v)) =>
+                  forallb (fun i => match find_sd dg i with
+                                    | Some y => negb (is_virtual_d y) || nmem i v
+                                    | None => true end) m
+              | _, _ => true end
+          | _, _ => true
+          end) dg.(g_sessions).
+
 Definition smsg_tags (l : list smsg) : list (N * N) :=
   flat_map (fun m => match m with SMsg k _ _ _ _ t => [(k, t)] | _ => [] end) l.
 
@@ -761,7 +778,8 @@ Definition check_step (which : N) (cfg : pcfg) (last : bool) (ps : pstate) (o : 
   | 8 => if step_C08 pd o ob dg then 0 else 1
   | 9 => if digest_C09 dg then 0 else 1
   | 19 => if negb (digest_C19 dg) then 1 else if negb (step_C19 pd o ob dg) then 2
-          else if cfg.(pc_quiescent) && negb (part_ok ps.(ps_virt) pd dg o ob) then 3 else 0
+          else if cfg.(pc_quiescent) && negb (part_ok ps.(ps_virt) pd dg o ob) then 3
+          else if cfg.(pc_quiescent) && negb (virtuals_seen_b ps.(ps_broken) dg views) then 4 else 0
   | 14 => step_C14 cfg.(pc_quiescent) ps.(ps_broken) pd (update_tviews pd dg ob ps.(ps_tdata)) o ob dg
   | _ => 0
   end.
